@@ -20,7 +20,7 @@ DOCS = {
     "unparsable": '<mjml><mj-body><mj-section></mj-body></mjml>',
     "unreadable": None,
 }
-OUTS = ["stdout", "s", "file", "existing", "unwritable"]
+OUTS = ["stdout", "s", "file", "existing", "unwritable", "file+s", "existing+s"]
 TTLS = ["", "0s", "-1s", "1ns", "1ms", "10m", "2562047h"]
 IVS = ["", "0s", "-5s", "1ns", "1h"]
 
@@ -44,8 +44,13 @@ def nontrivial(j):
     return j["cache"] or j["out"] != "stdout" or j["doc"] != "valid" or j["debug"]
 
 
+def base_out(j):
+    return dict(j, out=j["out"].split("+")[0])
+
+
 def direct_oracle(j, r):
     """Judge one observed run against the property text, without the model. Returns a reason or None."""
+    j = base_out(j)
     lib_err = r["lib_err"] != "none" or j["content"] is None
     if r.get("timed_out"):
         return "command did not terminate within 20 s"
@@ -90,6 +95,7 @@ def direct_oracle(j, r):
 def coq_case(i, j, r):
     rd_ok = j["content"] is not None
     lib_err = r["lib_err"] != "none"
+    j = base_out(j)
     wr_ok = j["out"] != "unwritable"
     f = ("{| f_out := %s; f_s := %s; f_debug := %s; f_cache := %s; f_ttl := %d; f_interval := %d |}" % (
         vlib.coq_bool(j["out"] in ("file", "existing", "unwritable")), vlib.coq_bool(j["out"] == "s"),
